@@ -304,3 +304,64 @@ def run_packshift(facts, rep):
                           "coefficients" % ("derives from the number of inputs instead of the ring degree" if count else
                                             "does not resolve to the ring degree"), facts.loc(p, c))
     return n
+
+
+def run_packelement(facts, rep):
+    """R-LWEPAIR(element) [N]: in layer j of the packing butterfly the odd half is mapped by the automorphism X -> X^(2^(j+1) + 1).
+    The element handed to apply_galois_inplace inside the butterfly must be `(1 << (layer + 1)) + 1`: a shift of the literal 1.
+    An element derived from the ring degree (`N >> (l - layer - 1)) + 1`) coincides with it only when the number of layers l
+    equals log2 N, i.e. when more than N/2 ciphertexts are packed."""
+    RE = "R-LWEPAIR(element)"
+    rep.rule(RE, "the Galois element of butterfly layer j is (1 << (j + 1)) + 1, not a quantity derived from the ring degree")
+    pack = [p for p in facts.hir if p.endswith("::pack_lwe_ciphertexts")]
+    if not rep.anchor(RE, "pack_lwe_ciphertexts", bool(pack)):
+        return 0
+    p = pack[0]
+    rep.fn(p)
+    body = facts.inlined(p)
+    defs = Defs(body)
+    n = 0
+    done = set()
+    for lp in walk(body):
+        if lp.get("k") not in ("For", "While"):
+            continue
+        for c in walk(lp["body"]):
+            if id(c) in done:
+                continue
+            if not (c.get("k") in ("MCall", "Inl") and (c.get("name") == "apply_galois_inplace") and (c.get("args") or (c.get("orig") or {}).get("args"))):
+                continue
+            args = c.get("args") or c["orig"]["args"]
+            if len(args) < 2:
+                continue
+            done.add(id(c))
+            n += 1
+            key = "pack/element#%d" % (n - 1)
+            e = strip(args[1])
+            for _ in range(4):
+                lo = local_of(e)
+                if lo and len(defs.defs.get(lo[0], [])) == 1:
+                    e = strip(defs.defs[lo[0]][0])
+                else:
+                    break
+            if not (e.get("k") == "Bin" and e.get("op") == "+"):
+                rep.unresolved(RE, key, "element is not of the form X + 1", facts.loc(p, c))
+                continue
+            parts = [strip(e["a"]), strip(e["b"])]
+            base = [q for q in parts if not (q.get("k") == "Lit" and str(q.get("v", "")).split("_")[0] == "1")]
+            if len(base) != 1:
+                rep.unresolved(RE, key, "element is not of the form X + 1", facts.loc(p, c))
+                continue
+            b = base[0]
+            for _ in range(3):
+                if b.get("k") == "Block" and b.get("expr") is not None and not b.get("stmts"):
+                    b = strip(b["expr"])
+            if b.get("k") == "Bin" and b.get("op") == "<<" and strip(b["a"]).get("k") == "Lit" and \
+                    str(strip(b["a"]).get("v", "")).split("_")[0] == "1":
+                rep.ok(RE, key, "element = (1 << ..) + 1", facts.loc(p, c), sample={"call": n - 1})
+            elif any(y.get("k") == "MCall" and y.get("name") in ("poly_modulus_degree", "coeff_count") for y in defs.closure(b)):
+                rep.violation(RE, key, "the butterfly's Galois element is derived from the ring degree instead of being 2^(layer+1) + 1: "
+                              "whenever fewer than N/2 + 1 ciphertexts are packed (fewer layers than log2 N) the wrong automorphism "
+                              "is applied to the odd half", facts.loc(p, c))
+            else:
+                rep.unresolved(RE, key, "element's base is not a shift of the literal 1", facts.loc(p, c))
+    return n
